@@ -69,6 +69,70 @@ Proof.
       inversion Hx; subst. assumption.
 Qed.
 
+(* ------------------------------------------------------------------ close peers of a client / node *)
+
+Section ClosePeers.
+  Variable H : bytes -> N.
+
+  Lemma drop_self_in self_peer peers p : In p (drop_self self_peer peers) <-> In p peers /\ p <> self_peer.
+  Proof.
+    unfold drop_self. rewrite filter_In, negb_true_iff. split; intros [Hi Hn]; split; try exact Hi.
+    - intros ->. assert (bytes_eqb self_peer self_peer = true) by (apply bytes_eqb_eq; reflexivity). congruence.
+    - destruct (bytes_eqb p self_peer) eqn:E; [apply bytes_eqb_eq in E; contradiction|reflexivity].
+  Qed.
+
+  Lemma expanded_close_group_value : expanded_close_group = 7.
+  Proof. reflexivity. Qed.
+
+  (* a client never counts nor ranks itself: the selection and the too-few check see the OTHER peers only *)
+  Lemma close_peers_client_lemma self_peer found key :
+    let others := drop_self self_peer found in
+    match get_all_close_peers H self_peer true found key with
+    | SortOk l =>
+        CLOSE_GROUP_SIZE <= N.of_nat (List.length others) /\
+        l = firstn (N.to_nat expanded_close_group) (sort_by (key_peer_distance H (kbucket_key H key)) others) /\
+        N.of_nat (List.length l) = N.min expanded_close_group (N.of_nat (List.length others)) /\
+        ~ In self_peer l /\
+        sorted_by (key_peer_distance H (kbucket_key H key)) l
+    | NotEnoughPeers f r =>
+        N.of_nat (List.length others) < CLOSE_GROUP_SIZE /\ f = N.of_nat (List.length others) /\ r = CLOSE_GROUP_SIZE
+    end.
+  Proof.
+    cbn zeta. unfold get_all_close_peers, sort_peers_by_address.
+    destruct (sort_peers_by_key H (drop_self self_peer found) (kbucket_key H key) expanded_close_group) as [l|f r] eqn:E.
+    - pose proof (sort_ok_inv H _ _ _ _ E) as [Hge El].
+      split; [exact Hge|]. split; [exact El|]. split; [apply (sort_length_lemma H _ _ _ _ E)|].
+      split; [|apply (sort_sorted_lemma H _ _ _ _ E)].
+      intros Hin. rewrite El in Hin.
+      assert (Hin' : In self_peer (sort_by (key_peer_distance H (kbucket_key H key)) (drop_self self_peer found))).
+      { rewrite <- (firstn_skipn (N.to_nat expanded_close_group)). apply in_or_app. left. exact Hin. }
+      clear Hin. rename Hin' into Hin. apply sort_by_in in Hin.
+      apply drop_self_in in Hin. destruct Hin as [_ Hn]. apply Hn. reflexivity.
+    - apply sort_error_iff_lemma in E. exact E.
+  Qed.
+
+  (* a node keeps itself among the found peers: plain selection *)
+  Lemma close_peers_node_lemma self_peer found key :
+    get_all_close_peers H self_peer false found key = sort_peers_by_address H found key expanded_close_group.
+  Proof. reflexivity. Qed.
+End ClosePeers.
+
+(* case (b) of the boundary: CLOSE_GROUP_SIZE-1 other peers plus the client itself => NotEnoughPeers{4,5};
+   case (a): the client is the nearest of 9 found => the 7 nearest others come back *)
+Example close_peers_client_examples :
+  let me := sha_peer 9 in
+  get_all_close_peers sha256 me true (map sha_peer [1; 2; 3; 4] ++ [me]) f17_target = NotEnoughPeers 4 5 /\
+  (exists l, get_all_close_peers sha256 me true (me :: map sha_peer [1; 2; 3; 4; 5; 6; 7; 8]) (APeer me) = SortOk l /\
+             List.length l = 7%nat /\ ~ In me l) /\
+  (exists l, get_all_close_peers sha256 me false (me :: map sha_peer [1; 2; 3; 4]) (APeer me) = SortOk l /\
+             hd [] l = me).
+Proof.
+  cbn zeta. split; [vm_compute; reflexivity|]. split.
+  - eexists. split; [vm_compute; reflexivity|]. split; [reflexivity|].
+    intros Hin. repeat (destruct Hin as [Hin|Hin]; [vm_compute in Hin; discriminate|]). exact Hin.
+  - eexists. split; [vm_compute; reflexivity|]. vm_compute. reflexivity.
+Qed.
+
 (* ------------------------------------------------------------------ the specification *)
 
 Section Spec.
